@@ -634,6 +634,8 @@ def num_parts(v):
         return f.numerator, f.denominator
     if is_z3(v):
         return v, 1
+    if type(v).__name__ == "SFloat":
+        return v.r, 1
     return None
 
 
